@@ -204,10 +204,14 @@ type Publisher struct {
 	parkedHeads atomic.Int32
 }
 
-// AddPublisher creates publisher i (key pool index i, ed25519) listening on 10.0.0.(i+1):80.
+// AddPublisher creates publisher i (key pool index keyIdx; -1: the RSA-4096 key) listening on 10.0.0.(i+1):80.
 func (w *World) AddPublisher(keyIdx int, discovery bool, handlerPath string) *Publisher {
 	i := len(w.Pubs)
-	p := &Publisher{w: w, Idx: i, Key: gen.Keys()[keyIdx], Discovery: discovery, blockFlt: map[int][]Fault{}, cidFlt: map[string][]Fault{}}
+	key := gen.BigKey() // keyIdx < 0: the RSA-4096 key
+	if keyIdx >= 0 {
+		key = gen.Keys()[keyIdx]
+	}
+	p := &Publisher{w: w, Idx: i, Key: key, Discovery: discovery, blockFlt: map[int][]Fault{}, cidFlt: map[string][]Fault{}}
 	p.ID = p.Key.ID
 	p.Store = &memstore.Store{}
 	p.Lsys = cidlink.DefaultLinkSystem()
